@@ -433,7 +433,7 @@ class AddMissingOptional(V3Contract):
         om, m = o.fields.get("original_metrics"), o.fields.get("metrics")
         ok = isinstance(om, SMap) and isinstance(m, SMap)
         if not ok:
-            ctx.fail("post:maps", "original_metrics / metrics are not metric maps after the call")
+            ctx.fail("post:maps", "original_metrics / metrics are not metric maps after the call", status="unknown")
             return
         ctx.prove("post:original==O", map_equal(om.dom, om.val, v.o.dom, v.o.val, v3.ORDER),
                   "original_metrics is a copy of the parsed map")
